@@ -322,9 +322,9 @@ func sameIn(a, b *types.TxInput) bool {
 func InputDigest(in *types.TxInput) string {
 	switch t := in.TypedInput.(type) {
 	case *types.SpendInput:
-		return fmt.Sprintf("S|%d|%x|%x|%x|%v|%d|%d|%d|%x|%x|%x", in.AssetVersion, in.CommitmentSuffix, in.WitnessSuffix, t.SourceID.Bytes(), aaStr(t.AssetAmount), t.SourcePosition, t.VMVersion, len(t.StateData), t.ControlProgram, t.StateData, t.Arguments)
+		return fmt.Sprintf("S|%x|%d|%x|%x|%x|%v|%d|%d|%d|%x|%x|%x", t.SpendCommitmentSuffix, in.AssetVersion, in.CommitmentSuffix, in.WitnessSuffix, t.SourceID.Bytes(), aaStr(t.AssetAmount), t.SourcePosition, t.VMVersion, len(t.StateData), t.ControlProgram, t.StateData, t.Arguments)
 	case *types.VetoInput:
-		return fmt.Sprintf("V|%d|%x|%x|%x|%v|%d|%d|%d|%x|%x|%x|%x", in.AssetVersion, in.CommitmentSuffix, in.WitnessSuffix, t.SourceID.Bytes(), aaStr(t.AssetAmount), t.SourcePosition, t.VMVersion, len(t.StateData), t.ControlProgram, t.StateData, t.Arguments, t.Vote)
+		return fmt.Sprintf("V|%x|%d|%x|%x|%x|%v|%d|%d|%d|%x|%x|%x|%x", t.VetoCommitmentSuffix, in.AssetVersion, in.CommitmentSuffix, in.WitnessSuffix, t.SourceID.Bytes(), aaStr(t.AssetAmount), t.SourcePosition, t.VMVersion, len(t.StateData), t.ControlProgram, t.StateData, t.Arguments, t.Vote)
 	case *types.IssuanceInput:
 		return fmt.Sprintf("I|%d|%x|%x|%x|%d|%x|%d|%x|%x", in.AssetVersion, in.CommitmentSuffix, in.WitnessSuffix, t.Nonce, t.Amount, t.AssetDefinition, t.VMVersion, t.IssuanceProgram, t.Arguments)
 	case *types.CoinbaseInput:
